@@ -59,10 +59,10 @@ CHECKS["C04"] = dict(level="model_checking", design="4/C04, 6", engine="bmc", te
    note="Trusted: as C01; monitors are ghost state (not schedulable steps). Bounds: 1 worker, n<=1, quota none/1 (quick); 2 workers, n<=2 with a context bound, bounded results queue (thorough).")
 CHECKS["C18"] = dict(level="model_checking", design="4/C18, 3.6", engine="bmc", technique=BMC + "; for C18 the replays run REAL os.fork()ed processes on a real file with every file operation released by a coordinator in schedule order",
    text="Decided by z3 over all interleavings of the OS-level file operations (open, seek, readline, close, mmap) of a parent and up to three forked children and over all requested line indices (solver variables per read): every read of RandomLineAccessFile, MemoryMappedRandomLineAccessFile and MapAccessFile returns the requested line, no process raises, every execution is shorter than K steps. The repository's bytecode (__getitem__, _read_line, _file_seek, _read_next_line, reopen_if_needed, open, close) is executed symbolically per process; the operating system is a small state model (one read position per open file description; a forked copy shares the parent's description until the code itself calls open(); os.getpid() = process index).",
-   note="Trusted: z3, VM, and the OS model stated in the evidence (fork shares the description, open() creates a fresh one, mmap positions are private, no user-space read-ahead: worst case). Bounds: quick 1-3 children, <=2 reads per process, 3 lines, optional parent read before fork; thorough <=3 reads, 3 children x 2 reads under a context bound of 3 pre-emptions.")
+   note="Trusted: z3, VM, and the OS model stated in the evidence (fork shares the description, open() creates a fresh one, mmap positions are private, no user-space read-ahead: worst case). Bounds: quick 1-3 children, <=2 reads per process, 3 lines, optional parent read before fork, one configuration with the second child forked after another parent read; thorough <=3 reads, 3 children x 2 reads under a context bound of 3 pre-emptions.")
 CHECKS["C14"] = dict(level="model_checking", design="4/C14, 3.6", engine="bmc", technique=BMC + "; for C14 the replays run the REAL TextFileStorage with real Manager/Value/RLock objects, real files and real forked processes whose primitive operations a coordinator releases in schedule order",
-   text="Decided by z3 over all interleavings of the primitive steps (Manager-list proxy calls, Value reads/writes, RLock, file open/tell/print/seek/readline) of writer processes, a concurrent reader process and the parent, and over all identifiers (solver variables: gaps, reversed arrival, pre-sized index): a concurrent read returns exactly the text stored under the id or raises IndexError - never an empty line or another id's text; after the writers finished len == number of stored ids, is_contiguous() iff the ids are 0..len-1, iteration yields every stored text in id order skipping gaps, reads of stored / never stored ids, a second store raises ValueError and changes nothing; no deadlock; every execution shorter than K steps. The bytecode of TextFileStorage (open, close, __setitem__, __getitem__, _open_file_for_read, _is_file_open_for_read, __len__, is_contiguous, __iter__) is executed symbolically per process.",
-   note="Trusted: z3, VM, primitive contracts (atomic proxy calls, print+flush appends one complete line, offsets as line numbers, per-process object copies). Bounds: quick 1 writer x 1 write + 1 concurrent read (ids 0..2, plain and pre-sized index), 1 writer + full inspection (ids 0..1), 2 writers x 1 write; thorough 2 writes per writer, 2 reads, ids 0..2, 2 writers + reader under a context bound. flush() and storages opened before the fork are outside.")
+   text="Decided by z3 over all interleavings of the primitive steps (Manager-list proxy calls, Value reads/writes, RLock, file open/tell/print/seek/readline) of writer processes, a concurrent reader process and the parent, and over all identifiers (solver variables: gaps, reversed arrival, pre-sized index): a concurrent read returns exactly the text stored under the id or raises IndexError - never an empty line or another id's text; after the writers finished len == number of stored ids, is_contiguous() iff the ids are 0..len-1, iteration yields every stored text in id order skipping gaps, reads of stored / never stored ids, a second store raises ValueError and changes nothing; flush() removes every file, resets len / is_contiguous / iteration and leaves a usable storage; no deadlock; every execution shorter than K steps. The bytecode of TextFileStorage (open, close, flush, __setitem__, __getitem__, _open_file_for_read, _is_file_open_for_read, __len__, is_contiguous, __iter__) is executed symbolically per process.",
+   note="Trusted: z3, VM, primitive contracts (atomic proxy calls, print+flush appends one complete line, offsets as line numbers, per-process object copies). Bounds: quick 1 writer x 1 write + 1 concurrent read (ids 0..2, plain and pre-sized index), 1 writer + full inspection (ids 0..1), 1 writer + flush scenario, 2 writers x 1 write; thorough 2 writes per writer, 2 reads, ids 0..2, 2 writers + reader under a context bound. Buffered (unflushed) writes are modelled. Storages opened or read in the parent before the fork and flush() concurrent with other users are outside.")
 NOT_YET = {
  "C13": "escaping behaviour lives in the C extensions _json/_csv: CrossHair realises every value at that boundary (sampling, not this technique) and csv has no Python source to encode; the repository-owned record-file layering is exercised inside C11/C12 with an identity record class (DESIGN.md section 6)",
 }
